@@ -96,7 +96,16 @@ pub fn crash_oracles(report: &mut Report, case: &Value, sc: &Scenario, arch: &st
             report.oracle_fail("crash:interrupted-version-missing-block", case.clone(), "restoring the interrupted version hits a missing block or crashes", json!({"result": trunc(&rr.result), "events": rr.events.iter().take(3).collect::<Vec<_>>()}));
         }
     } else if head.is_some() && has_tail {
+        // the tail file exists (possibly still zero-length: killed between the two micro-steps of its write):
+        // every entry has been recorded, the version counts as complete, and it must restore to the source
+        // exactly, taking nothing from the previous version (Lean: Gaps.interrupted_listing_tail_started)
         report.hit("crash-state:tail-written");
+        let (rr, robs) = restore_observe(arch, sc.run.work.path(), &Sel::Band(new_band), "c03t");
+        if !rr.result.starts_with("result ok") || rr.events.iter().any(|e| e.starts_with("event error")) {
+            report.oracle_fail("crash:tail-started-version-not-clean", case.clone(), "the version whose tail write had begun does not restore cleanly", json!({"result": trunc(&rr.result), "events": rr.events.iter().take(3).collect::<Vec<_>>()}));
+        } else if let Some(d) = crate::c01::tree_diff(&sc.src_obs, &robs) {
+            report.oracle_fail("crash:tail-started-version-not-exact", case.clone(), "the version whose tail write had begun does not restore to exactly the source (entries of the previous version leak in, or are missing)", d);
+        }
     }
     // 4. validate is clean on the crash state, once the interrupted version's header exists
     //    (C09 promises silence for "interrupted-with-header" backups; before that it may complain
@@ -155,11 +164,36 @@ pub fn run(tier: &str, seed: u64, report: &mut Report) {
         let mut steps = gen_history(&mut rng, hl, &go, sidx % 3 == 2, false);
         let last_tree = steps.iter().rev().find_map(|s| if let Step::SetTree(t) = s { Some(t.clone()) } else { None }).unwrap();
         let mut clock = 1_750_000_000_000_000_000;
-        steps.push(Step::SetTree(mutate_tree(&mut rng, &last_tree, &go, &mut clock)));
+        let mut next_tree = mutate_tree(&mut rng, &last_tree, &go, &mut clock);
+        if sidx % 2 == 0 {
+            // the entry that sorts LAST in the previous version is gone in the new tree: whatever wrongly
+            // continues into the previous version after the new one's last path brings it back
+            let mut keys: Vec<String> = last_tree.nodes.keys().filter(|k| *k != "/").cloned().collect();
+            keys.sort_by(|a, b| crate::c11::doc_cmp(a, b));
+            if let Some(last) = keys.last() {
+                if next_tree.nodes.remove(last).is_some() {
+                    let pref = format!("{last}/");
+                    next_tree.nodes.retain(|k, _| !k.starts_with(&pref));
+                    report.hit("directed:last-entry-of-previous-version-removed");
+                }
+            }
+        }
+        steps.push(Step::SetTree(next_tree));
         let params = BackupParamsLite { hunk: *rng.pick(&[1usize, 2, 3, 1000]), block: *rng.pick(&[3usize, 8, 16, 1 << 20]), cap: *rng.pick(&[0u64, 4, 8, 1 << 20]) };
         let case_id = json!({"case_seed": case_seed, "prefix": history_json(&steps), "interrupted_backup": params.json()});
-        let sc = build_scenario(&steps, report, &case_id, "crash-prefix");
+        let mut sc = build_scenario(&steps, report, &case_id, "crash-prefix");
         let p = params.params();
+        // directed (first scenario of every run): an EARLIER attempt at this backup died between the two
+        // micro-steps of its first index hunk write — a head and a zero-length hunk 0 — and was not resumed;
+        // the swept backup runs on top of it, so its interrupted states stitch THROUGH that band
+        if sidx == 0 {
+            let nb = all_bands(&sc.pre_state).into_iter().max().map(|b| b + 1).unwrap_or(0);
+            let pp = BackupParamsLite { hunk: 2, block: 8, cap: 6 }.params();
+            if die_on_first_hunk(sc.run.work.path(), &sc.run.arch, &sc.run.src, &pp, nb) {
+                report.hit("directed:earlier-attempt-died-on-first-hunk");
+                sc.pre_state = abstract_archive(&sc.run.arch).0;
+            }
+        }
         let new_band = all_bands(&sc.pre_state).into_iter().max().map(|b| b + 1).unwrap_or(0);
         let arch0 = fresh_copy(&sc, "ff");
         let ff = real_backup(&arch0, &sc.run.src, &p, IceptConfig::default());
